@@ -122,6 +122,16 @@ func H_C07_np_splice() {
 	}
 	s := string(b)
 	verif.Reach("monitor: splice parsed")
+	// the lexer runs in its own goroutine. Scheduling: run-until-blocked or yield-at-every-channel-operation
+	// (the two extreme policies); thorough: for strings up to length 2 every interleaving of the channel operations
+	switch verif.Choice("schedule", 2) {
+	case 1:
+		if verif.Tier() > 0 && l <= 2 {
+			verif.ScheduleAll(true)
+		} else {
+			verif.ScheduleEager(true)
+		}
+	}
 	verif.NoPanic("C07/varexp setting panics", func() {
 		c, err := ucfg.NewFrom(map[string]interface{}{"a": "x", "v": s}, ucfg.VarExp, ucfg.PathSep("."))
 		if err == nil {
